@@ -189,7 +189,7 @@ def run_case(case, part):
 
     def walk(obj, cur_t, cur_v, cur_e, level, hist, tref_same):
         # copy
-        ops = [("copy",)] + ([("timeseries",)] if level <= 1 else []) + (_index_exprs(len(cur_t)) if len(cur_t) <= 3 or level == 0 else _index_exprs(len(cur_t))[:12])
+        ops = [("copy",)] + ([("timeseries",), ("plot",)] if level <= 1 else []) + (_index_exprs(len(cur_t)) if len(cur_t) <= 3 or level == 0 else _index_exprs(len(cur_t))[:12])
         for op in ops:
             h = hist + [op]
             c2 = dict(case, chain=[list(map(lambda x: x if not isinstance(x, (np.bool_,)) else bool(x), o)) for o in h])
@@ -198,6 +198,29 @@ def run_case(case, part):
                     nxt = obj.copy()
                     nt, nv, ne = cur_t, cur_v, cur_e
                     keep_tref = tref_same
+                elif op[0] == "plot":
+                    # read-only use: plotting the data (times relative to the reference epoch) must leave the object as it was
+                    import matplotlib
+
+                    matplotlib.use("Agg")
+                    import matplotlib.pyplot as plt
+
+                    if obj.t_ref is None:
+                        continue  # (plotting data without a reference epoch is refused by the library)
+                    before = [np.array(x).copy() for x in _state(obj)] + [float(obj._t_ref_bmjd)]
+                    fig, ax = plt.subplots()
+                    try:
+                        obj.plot(ax=ax, relative_to_t_ref=True)
+                        obj.plot(ax=ax)
+                    finally:
+                        plt.close(fig)
+                    after = [np.array(x) for x in _state(obj)] + [float(obj._t_ref_bmjd)]
+                    part.add("chain_ops")
+                    part.transitions += 1
+                    if not all(np.array_equal(a_, b_) for a_, b_ in zip(before, after)):
+                        part.violation(c2, "plotting the data changed the observations / reference epoch stored in the object", expected=[np.asarray(b_).tolist() for b_ in before[:1]],
+                                       observed=[np.asarray(a_).tolist() for a_ in after[:1]])
+                    continue
                 elif op[0] == "timeseries":
                     # persistence: to_timeseries -> file -> from_timeseries holds the same observations (and reference epoch, if any)
                     import os
@@ -249,7 +272,7 @@ def run_case(case, part):
             if level + 1 < depth:
                 # continue from the state actually reached (stored order)
                 st, sv, se = _state(nxt)
-                walk(nxt, st.tolist(), sv.tolist(), (se if cov else se.tolist()), level + 1, h, op[0] in ("copy", "timeseries") and keep_tref)
+                walk(nxt, st.tolist(), sv.tolist(), (se if cov else se.tolist()), level + 1, h, op[0] in ("copy", "timeseries", "plot") and keep_tref)
 
     if depth > 0:
         st, sv, se = _state(d)
